@@ -23,7 +23,7 @@ class Contract:
     def __init__(self, id, func, call, params=None, bind=None, requires=(), ref=None, compare=("result", "exc"),
                  props=(), applies=None, assumed=False, known=(), note="", setup=(), ensures=(), raises_only=None,
                  loops=None, inline=(), timeout=None, ghost=None, max_paths=None, use_contracts=True, exc_compare="class",
-                 replay=True, bounded=None, ensures_exc=(), nondet=False, no_entry_check=False, callsite=True, tier="quick", callsite_ref=None, callsite_ensures=(), enum=None):
+                 replay=True, bounded=None, ensures_exc=(), nondet=False, no_entry_check=False, callsite=None, tier="quick", callsite_ref=None, callsite_ensures=(), enum=None):
         self.id = id
         self.func = func
         self.call = call
@@ -56,7 +56,9 @@ class Contract:
         self.ensures = self.ensures + [e for e in self.callsite_ensures if e not in self.ensures]
         self.enum = enum              # callable(tier) -> iterable of {param: value}: exhaustive native enumeration (bounded stand-in)
         self.tier = tier              # "thorough": only verified in the thorough tier
-        self.callsite = callsite      # False: never substituted for the callee at call sites
+        # substitution at call sites: explicit True/False, else only contracts that say for which callee arguments they
+        # hold (bind / applies) are substituted
+        self.callsite = callsite if callsite is not None else bool(self.bind or self.applies)
         self.ensures_exc = list(ensures_exc)  # postconditions on exceptional exit (over params and `exc`)
         REGISTRY.append(self)
         if id in BY_ID:
